@@ -326,7 +326,7 @@ Definition ostep (st : ost) (s : eop * list eobs) : ost * list nat :=
       (set_in2 (set_exch st (filter (fun e => negb (Nat.eqb (xnode e) n) || live st (xc e)) (t_exch st)))
                (filter (fun e => match find_sess st (ic e) with Some x => negb (Nat.eqb (onode x) n) | None => true end) (t_in2 st)),
        chk (perm_eqb sp_eqb (resends obs) (map resend_of (filter (fun e => writable st (xc e)) mine))) 70 ++ chk (negb (has_store obs)) 71)%list
-    | EGossip a b =>
+    | EGossip a b | EGossipRev a b =>
       (* b receives a's own broadcasts: it now knows every session a hosts *)
       (set_sess (set_dirty st (filter (fun p => negb (pair_eqb p (a, b))) (t_dirty st)))
                 (map (fun z => if Nat.eqb (onode z) a && negb (nat_mem b (oknown z)) then s_known z (b :: oknown z) else z) (t_sess st)),
